@@ -194,7 +194,16 @@ where T: Num + palette::bool_mask::HasBoolMask<Mask = bool> {
 // ---- CAM16 forward model: Li, Li, Wang, Zu, Luo, Cui, Melgosa, Brill, Pointer (2017), with XYZ on a 0..100 scale ----
 /// xyz, white on the 0..1 scale (as palette stores them); la = adapting luminance, yb = background luminance factor (0..1),
 /// surround = (c, F, N_c); D computed by the default formula. -> (J, C, h, Q, M, s)
+pub struct Cam16Spec<T> { pub a: T, pub b: T, pub h_rad: T, pub h: T, pub et: T, pub big_a: T, pub aw: T, pub t: T, pub j: T, pub c: T, pub q: T, pub m: T, pub s: T, pub fl: T, pub nbb: T, pub z: T, pub n: T, pub d: T }
 pub fn cam16_forward<T: Num>(xyz: (T, T, T), white: (f64, f64, f64), la: T, yb: f64, surround: (f64, f64, f64)) -> (T, T, T, T, T, T) {
+    let r = cam16_forward_cie(xyz, white, la, yb, surround);
+    (r.j, r.c, r.h, r.q, r.m, r.s)
+}
+/// The published forward model, step by step (Li et al. 2017 / CIE 248:2022, steps 0-7), intermediates included.
+/// e_t is evaluated on the radian hue angle atan2(b, a): the publication's cos(h * pi/180 + 2) with h = that angle in degrees
+/// normalised to [0, 360) is the same number (cos has period 2 pi).
+pub fn cam16_forward_cie<T: Num>(xyz: (T, T, T), white: (f64, f64, f64), la: T, yb: f64, surround: (f64, f64, f64)) -> Cam16Spec<T> {
+    use palette::angle::RealAngle;
     use palette::num::{Exp, Powf, Sqrt, Trigonometry};
     let k = |v: f64| T::k(v);
     let m16 = |x: T, y: T, z: T| -> (T, T, T) {
@@ -203,17 +212,18 @@ pub fn cam16_forward<T: Num>(xyz: (T, T, T), white: (f64, f64, f64), la: T, yb: 
          k(-0.002079) * x + k(0.048952) * y + k(0.953127) * z)
     };
     let (c, f, nc) = surround;
-    let (xw, yw, zw) = (k(white.0 * 100.0), k(white.1 * 100.0), k(white.2 * 100.0));
+    let (xw, yw, zw) = (k(white.0) * k(100.0), k(white.1) * k(100.0), k(white.2) * k(100.0));
     let (rw, gw, bw) = m16(xw, yw, zw);
-    let d0 = k(f) * (k(1.0) - k(1.0 / 3.6) * ((-la - k(42.0)) / k(92.0)).exp());
+    let d0 = k(f) * (k(1.0) - k(1.0) / k(3.6) * ((-la - k(42.0)) / k(92.0)).exp());
     let d = T::ite(&T::p_le(&d0, &k(0.0)), k(0.0), T::ite(&T::p_le(&k(1.0), &d0), k(1.0), d0));
     let dr = |cw: T| d * yw / cw + k(1.0) - d;
     let (dr_r, dr_g, dr_b) = (dr(rw), dr(gw), dr(bw));
     let kk = k(1.0) / (k(5.0) * la + k(1.0));
     let k4 = kk * kk * kk * kk;
-    let fl = k(0.2) * k4 * (k(5.0) * la) + k(0.1) * (k(1.0) - k4) * (k(1.0) - k4) * (k(5.0) * la).powf(k(1.0 / 3.0));
-    let n = k(yb * 100.0) / yw;
+    let fl = k(0.2) * k4 * (k(5.0) * la) + k(0.1) * (k(1.0) - k4) * (k(1.0) - k4) * (k(5.0) * la).powf(k(1.0) / k(3.0));
+    let n = k(yb) * k(100.0) / yw;
     let z = k(1.48) + n.sqrt();
+    // N_bb = 0.725 (1/n)^0.2, written with the negative exponent
     let nbb = k(0.725) * n.powf(k(-0.2));
     let ncb = nbb;
     let adapt = |x: T| -> T {
@@ -228,15 +238,222 @@ pub fn cam16_forward<T: Num>(xyz: (T, T, T), white: (f64, f64, f64), la: T, yb: 
     let (ra, ga, ba) = (adapt(dr_r * r), adapt(dr_g * g), adapt(dr_b * b));
     let a = ra - k(12.0) * ga / k(11.0) + ba / k(11.0);
     let bb = (ra + ga - k(2.0) * ba) / k(9.0);
-    let h0 = bb.atan2(a) * k(180.0 / std::f64::consts::PI);
+    let h_rad = bb.atan2(a);
+    let h0 = RealAngle::radians_to_degrees(h_rad);
     let h = T::ite(&T::p_lt(&h0, &k(0.0)), h0 + k(360.0), h0);
-    let et = k(0.25) * ((h * k(std::f64::consts::PI / 180.0) + k(2.0)).cos() + k(3.8));
+    let et = k(0.25) * ((h_rad + k(2.0)).cos() + k(3.8));
     let big_a = (k(2.0) * ra + ga + ba / k(20.0) - k(0.305)) * nbb;
     let j = k(100.0) * (big_a / aw).powf(k(c) * z);
-    let q = k(4.0 / c) * (j / k(100.0)).sqrt() * (aw + k(4.0)) * fl.powf(k(0.25));
-    let t = (k(50000.0 / 13.0 * nc) * ncb * et * (a * a + bb * bb).sqrt()) / (ra + ga + k(21.0) * ba / k(20.0));
+    let q = k(4.0) / k(c) * (j / k(100.0)).sqrt() * (aw + k(4.0)) * fl.powf(k(0.25));
+    let t = (k(50000.0) / k(13.0) * k(nc) * ncb * et * (a * a + bb * bb).sqrt()) / (ra + ga + k(21.0) * ba / k(20.0));
     let cc = t.powf(k(0.9)) * (j / k(100.0)).sqrt() * (k(1.64) - k(0.29).powf(n)).powf(k(0.73));
     let m = cc * fl.powf(k(0.25));
     let s = k(100.0) * (m / q).sqrt();
-    (j, cc, h, q, m, s)
+    Cam16Spec { a, b: bb, h_rad, h, et, big_a, aw, t, j, c: cc, q, m, s, fl, nbb, z, n, d }
+}
+
+// ---- Ottosson: Okhsl / Okhsv and the sRGB gamut helpers (ok_color.h, "Okhsv and Okhsl", 2021) ----
+/// Transcription of Björn Ottosson's reference implementation (ok_color.h: compute_max_saturation, find_cusp,
+/// find_gamut_intersection, to_ST, get_ST_mid, get_Cs, toe, toe_inv, okhsl_to_srgb / srgb_to_okhsl,
+/// okhsv_to_srgb / srgb_to_okhsv, up to the Oklab side of each). Constants, signs, branch conditions and operand
+/// roles are the reference's; comparisons use the component type's own operators so that in scalar symbolic mode every
+/// case of the reference is a path. Hues are taken as the angle atan2(b, a) (the reference's 0.5 + 0.5 atan2(-b, -a)/pi
+/// is the same angle in turns).
+pub mod ok {
+    use crate::logic::*;
+    use palette::bool_mask::HasBoolMask;
+    use palette::num::{Cbrt, MinMax, Sqrt};
+    pub trait N: Num + HasBoolMask<Mask = bool> + PartialOrd {}
+    impl<T: Num + HasBoolMask<Mask = bool> + PartialOrd> N for T {}
+
+    pub fn oklab_to_linear_srgb<T: N>(l: T, a: T, b: T) -> (T, T, T) {
+        let k = |v: f64| T::k(v);
+        let l_ = l + k(0.3963377774) * a + k(0.2158037573) * b;
+        let m_ = l - k(0.1055613458) * a - k(0.0638541728) * b;
+        let s_ = l - k(0.0894841775) * a - k(1.2914855480) * b;
+        let (l, m, s) = (l_ * l_ * l_, m_ * m_ * m_, s_ * s_ * s_);
+        (k(4.0767416621) * l - k(3.3077115913) * m + k(0.2309699292) * s,
+         k(-1.2684380046) * l + k(2.6097574011) * m - k(0.3413193965) * s,
+         k(-0.0041960863) * l - k(0.7034186147) * m + k(1.7076147010) * s)
+    }
+    pub fn compute_max_saturation<T: N>(a: T, b: T) -> T {
+        let k = |v: f64| T::k(v);
+        let (k0, k1, k2, k3, k4, wl, wm, ws) = if k(-1.88170328) * a - k(0.80936493) * b > k(1.0) {
+            (k(1.19086277), k(1.76576728), k(0.59662641), k(0.75515197), k(0.56771245), k(4.0767416621), k(-3.3077115913), k(0.2309699292))
+        } else if k(1.81444104) * a - k(1.19445276) * b > k(1.0) {
+            (k(0.73956515), k(-0.45954404), k(0.08285427), k(0.12541070), k(0.14503204), k(-1.2684380046), k(2.6097574011), k(-0.3413193965))
+        } else {
+            (k(1.35733652), k(-0.00915799), k(-1.15130210), k(-0.50559606), k(0.00692167), k(-0.0041960863), k(-0.7034186147), k(1.7076147010))
+        };
+        let s = k0 + k1 * a + k2 * b + k3 * a * a + k4 * a * b;
+        let k_l = k(0.3963377774) * a + k(0.2158037573) * b;
+        let k_m = k(-0.1055613458) * a - k(0.0638541728) * b;
+        let k_s = k(-0.0894841775) * a - k(1.2914855480) * b;
+        let (l_, m_, s_) = (k(1.0) + s * k_l, k(1.0) + s * k_m, k(1.0) + s * k_s);
+        let (l, m, s3) = (l_ * l_ * l_, m_ * m_ * m_, s_ * s_ * s_);
+        let (l_ds, m_ds, s_ds) = (k(3.0) * k_l * l_ * l_, k(3.0) * k_m * m_ * m_, k(3.0) * k_s * s_ * s_);
+        let (l_ds2, m_ds2, s_ds2) = (k(6.0) * k_l * k_l * l_, k(6.0) * k_m * k_m * m_, k(6.0) * k_s * k_s * s_);
+        let f = wl * l + wm * m + ws * s3;
+        let f1 = wl * l_ds + wm * m_ds + ws * s_ds;
+        let f2 = wl * l_ds2 + wm * m_ds2 + ws * s_ds2;
+        s - f * f1 / (f1 * f1 - k(0.5) * f * f2)
+    }
+    /// -> (L_cusp, C_cusp)
+    pub fn find_cusp<T: N>(a: T, b: T) -> (T, T) {
+        let s_cusp = compute_max_saturation(a, b);
+        let (r, g, bl) = oklab_to_linear_srgb(T::k(1.0), s_cusp * a, s_cusp * b);
+        let l_cusp = (T::k(1.0) / MinMax::max(MinMax::max(r, g), bl)).cbrt();
+        (l_cusp, l_cusp * s_cusp)
+    }
+    pub fn find_gamut_intersection<T: N>(a: T, b: T, l1: T, c1: T, l0: T, cusp: (T, T)) -> T {
+        let k = |v: f64| T::k(v);
+        let (cl, cc) = cusp;
+        if ((l1 - l0) * cc - (cl - l0) * c1) <= k(0.0) {
+            // lower half
+            cc * l0 / (c1 * cl + cc * (l0 - l1))
+        } else {
+            // upper half: first intersect with the triangle, then one step of Halley's method
+            let t = cc * (l0 - k(1.0)) / (c1 * (cl - k(1.0)) + cc * (l0 - l1));
+            let (dl, dc) = (l1 - l0, c1);
+            let k_l = k(0.3963377774) * a + k(0.2158037573) * b;
+            let k_m = k(-0.1055613458) * a - k(0.0638541728) * b;
+            let k_s = k(-0.0894841775) * a - k(1.2914855480) * b;
+            let (l_dt, m_dt, s_dt) = (dl + dc * k_l, dl + dc * k_m, dl + dc * k_s);
+            let lg = l0 * (k(1.0) - t) + t * l1;
+            let c = t * c1;
+            let (l_, m_, s_) = (lg + c * k_l, lg + c * k_m, lg + c * k_s);
+            let (l, m, s) = (l_ * l_ * l_, m_ * m_ * m_, s_ * s_ * s_);
+            let (ldt, mdt, sdt) = (k(3.0) * l_dt * l_ * l_, k(3.0) * m_dt * m_ * m_, k(3.0) * s_dt * s_ * s_);
+            let (ldt2, mdt2, sdt2) = (k(6.0) * l_dt * l_dt * l_, k(6.0) * m_dt * m_dt * m_, k(6.0) * s_dt * s_dt * s_);
+            let halley = |w: (f64, f64, f64)| -> T {
+                let f = k(w.0) * l + k(w.1) * m + k(w.2) * s - k(1.0);
+                let f1 = k(w.0) * ldt + k(w.1) * mdt + k(w.2) * sdt;
+                let f2 = k(w.0) * ldt2 + k(w.1) * mdt2 + k(w.2) * sdt2;
+                let u = f1 / (f1 * f1 - k(0.5) * f * f2);
+                let step = -f * u;
+                if u >= k(0.0) { step } else { k(10e5) }
+            };
+            let t_r = halley((4.0767416621, -3.3077115913, 0.2309699292));
+            let t_g = halley((-1.2684380046, 2.6097574011, -0.3413193965));
+            let t_b = halley((-0.0041960863, -0.7034186147, 1.7076147010));
+            t + MinMax::min(t_r, MinMax::min(t_g, t_b))
+        }
+    }
+    pub fn to_st<T: N>(cusp: (T, T)) -> (T, T) { (cusp.1 / cusp.0, cusp.1 / (T::k(1.0) - cusp.0)) }
+    pub fn get_st_mid<T: N>(a: T, b: T) -> (T, T) {
+        let k = |v: f64| T::k(v);
+        let s = k(0.11516993) + k(1.0) / (k(7.44778970) + k(4.15901240) * b
+            + a * (k(-2.19557347) + k(1.75198401) * b + a * (k(-2.13704948) - k(10.02301043) * b
+            + a * (k(-4.24894561) + k(5.38770819) * b + k(4.69891013) * a))));
+        let t = k(0.11239642) + k(1.0) / (k(1.61320320) - k(0.68124379) * b
+            + a * (k(0.40370612) + k(0.90148123) * b + a * (k(-0.27087943) + k(0.61223990) * b
+            + a * (k(0.00299215) - k(0.45399568) * b - k(0.14661872) * a))));
+        (s, t)
+    }
+    /// -> (C_0, C_mid, C_max)
+    pub fn get_cs<T: N>(l: T, a: T, b: T) -> (T, T, T) {
+        let k = |v: f64| T::k(v);
+        let cusp = find_cusp(a, b);
+        let c_max = find_gamut_intersection(a, b, l, k(1.0), l, cusp);
+        let st_max = to_st(cusp);
+        let kk = c_max / MinMax::min(l * st_max.0, (k(1.0) - l) * st_max.1);
+        let st_mid = get_st_mid(a, b);
+        let (c_a, c_b) = (l * st_mid.0, (k(1.0) - l) * st_mid.1);
+        let c_mid = k(0.9) * kk * (k(1.0) / (k(1.0) / (c_a * c_a * c_a * c_a) + k(1.0) / (c_b * c_b * c_b * c_b))).sqrt().sqrt();
+        let (c_a, c_b) = (l * k(0.4), (k(1.0) - l) * k(0.8));
+        let c_0 = (k(1.0) / (k(1.0) / (c_a * c_a) + k(1.0) / (c_b * c_b))).sqrt();
+        (c_0, c_mid, c_max)
+    }
+    pub fn toe<T: N>(x: T) -> T {
+        let k = |v: f64| T::k(v);
+        let (k_1, k_2) = (k(0.206), k(0.03));
+        let k_3 = (k(1.0) + k_1) / (k(1.0) + k_2);
+        k(0.5) * (k_3 * x - k_1 + ((k_3 * x - k_1) * (k_3 * x - k_1) + k(4.0) * k_2 * k_3 * x).sqrt())
+    }
+    pub fn toe_inv<T: N>(x: T) -> T {
+        let k = |v: f64| T::k(v);
+        let (k_1, k_2) = (k(0.206), k(0.03));
+        let k_3 = (k(1.0) + k_1) / (k(1.0) + k_2);
+        (x * x + k_1 * x) / (k_3 * (x + k_2))
+    }
+    /// okhsl_to_srgb up to Oklab, 0 < l < 1; (a_, b_) is the unit hue vector -> (L, a, b)
+    pub fn okhsl_to_oklab<T: N>(a_: T, b_: T, s: T, l: T) -> (T, T, T) {
+        let k = |v: f64| T::k(v);
+        let big_l = toe_inv(l);
+        let (c_0, c_mid, c_max) = get_cs(big_l, a_, b_);
+        let (mid, mid_inv) = (k(0.8), k(1.25));
+        let c = if s < mid {
+            let t = mid_inv * s;
+            let k_1 = mid * c_0;
+            let k_2 = k(1.0) - k_1 / c_mid;
+            t * k_1 / (k(1.0) - k_2 * t)
+        } else {
+            let t = (s - mid) / (k(1.0) - mid);
+            let k_0 = c_mid;
+            let k_1 = (k(1.0) - mid) * c_mid * c_mid * mid_inv * mid_inv / c_0;
+            let k_2 = k(1.0) - k_1 / (c_max - c_mid);
+            k_0 + t * k_1 / (k(1.0) - k_2 * t)
+        };
+        (big_l, c * a_, c * b_)
+    }
+    /// srgb_to_okhsl from Oklab (chromatic colours, 0 < L < 1) -> (s, l)
+    pub fn oklab_to_okhsl<T: N>(big_l: T, a: T, b: T) -> (T, T) {
+        let k = |v: f64| T::k(v);
+        let c = (a * a + b * b).sqrt();
+        let (a_, b_) = (a / c, b / c);
+        let (c_0, c_mid, c_max) = get_cs(big_l, a_, b_);
+        let (mid, mid_inv) = (k(0.8), k(1.25));
+        let s = if c < c_mid {
+            let k_1 = mid * c_0;
+            let k_2 = k(1.0) - k_1 / c_mid;
+            let t = c / (k_1 + k_2 * c);
+            t * mid
+        } else {
+            let k_0 = c_mid;
+            let k_1 = (k(1.0) - mid) * c_mid * c_mid * mid_inv * mid_inv / c_0;
+            let k_2 = k(1.0) - k_1 / (c_max - c_mid);
+            let t = (c - k_0) / (k_1 + k_2 * (c - k_0));
+            mid + (k(1.0) - mid) * t
+        };
+        (s, toe(big_l))
+    }
+    /// okhsv_to_srgb up to Oklab (s > 0, v > 0) -> (L, a, b)
+    pub fn okhsv_to_oklab<T: N>(a_: T, b_: T, s: T, v: T) -> (T, T, T) {
+        let k = |v: f64| T::k(v);
+        let (s_max, t_max) = to_st(find_cusp(a_, b_));
+        let s_0 = k(0.5);
+        let kk = k(1.0) - s_0 / s_max;
+        let l_v = k(1.0) - s * s_0 / (s_0 + t_max - t_max * kk * s);
+        let c_v = s * t_max * s_0 / (s_0 + t_max - t_max * kk * s);
+        let (l, c) = (v * l_v, v * c_v);
+        let l_vt = toe_inv(l_v);
+        let c_vt = c_v * l_vt / l_v;
+        let l_new = toe_inv(l);
+        let c = c * l_new / l;
+        let l = l_new;
+        let (r, g, bl) = oklab_to_linear_srgb(l_vt, a_ * c_vt, b_ * c_vt);
+        let scale_l = (k(1.0) / MinMax::max(MinMax::max(r, g), MinMax::max(bl, k(0.0)))).cbrt();
+        let (l, c) = (l * scale_l, c * scale_l);
+        (l, c * a_, c * b_)
+    }
+    /// srgb_to_okhsv from Oklab (chromatic, L > 0) -> (s, v)
+    pub fn oklab_to_okhsv<T: N>(big_l: T, a: T, b: T) -> (T, T) {
+        let k = |v: f64| T::k(v);
+        let c = (a * a + b * b).sqrt();
+        let (a_, b_) = (a / c, b / c);
+        let (s_max, t_max) = to_st(find_cusp(a_, b_));
+        let s_0 = k(0.5);
+        let kk = k(1.0) - s_0 / s_max;
+        let t = t_max / (c + big_l * t_max);
+        let (l_v, c_v) = (t * big_l, t * c);
+        let l_vt = toe_inv(l_v);
+        let c_vt = c_v * l_vt / l_v;
+        let (r, g, bl) = oklab_to_linear_srgb(l_vt, a_ * c_vt, b_ * c_vt);
+        let scale_l = (k(1.0) / MinMax::max(MinMax::max(r, g), MinMax::max(bl, k(0.0)))).cbrt();
+        let l = big_l / scale_l;
+        let l = toe(l);
+        let v = l / l_v;
+        let s = (s_0 + t_max) * c_v / ((t_max * s_0) + t_max * kk * c_v);
+        (s, v)
+    }
 }
